@@ -909,6 +909,8 @@ class Q:
                 diff = psub(a.n, b.n)
                 return bor(band(p_lt0(diff), p_gt0(a.d)), band(p_gt0(diff), p_lt0(a.d)))
             if isc(a.d) and isc(b.d):
+                if a.d == 0 or b.d == 0:
+                    return False    # not a finite value (flags decide)
                 l = pmul(a.n, Fraction(1) / a.d)
                 r = pmul(b.n, Fraction(1) / b.d)
                 return p_lt0(psub(l, r))
@@ -1124,3 +1126,9 @@ def eqv_strong(a, b):
     if not (isb(a.inf) and not a.inf and isb(b.inf) and not b.inf):
         parts.append(bimp(a.inf, p_gt0(pmul(a.sg, b.sg))))
     return band(*parts)
+
+
+def perturbed(b):
+    """a value different from b wherever b is finite with a non-zero radicand: (n + d) / d * sqrt(r)  (canaries)"""
+    b = Q.lift(b)
+    return Q(padd(b.n, b.d), b.d, b.rn, b.rd, b.nan, b.inf, b.sg)
